@@ -1,4 +1,8 @@
-from vlib import Check
+import json
+import os
+import re
+
+from vlib import Check, V, WORK, sh
 
 PID = "C04"
 
@@ -15,7 +19,8 @@ MANIFEST = dict(
     note="Trusted: Coq kernel+VM; harness transcription; MD5 preimage resistance and go-oidc signature checking (oracles H and oidc). "
          "'Proved knowledge of the credential' = presented md5(token||ts); replay of an old pair is not excluded (DESIGN 4a). "
          "The NewWorkConn plugin chain is an oracle whose OUTPUT is what gets verified (scripted http plugin in the driver); Login/Ping/NewProxy hooks are the identity (C15). Only observed, not proved: behaviour on websocket/tls/kcp/quic listeners, "
-         "connection closure after a refusal, liveness of the victim session after a barrage.",
+         "connection closure after a refusal, liveness of the victim session after a barrage; golang.org/x/crypto/ssh's server-side "
+         "user authentication (none succeeds iff NoClientAuth, publickey iff callback accepts) is modelled, not verified.",
     technique="Coq proof (invariant by induction over fold_left step) + translator unit t4auth (token.go Verify*, ConstantTimeEqString, RegisterControl -> gen/GenAuth.v, reflective shape theorems) + differential correspondence via vm_compute + trace monitors",
     design="4/C04")
 
@@ -29,12 +34,61 @@ REQUIRED = ["NLOGINOK", "NLOGINREFUSED", "NWORKPOOLED", "NWORKSILENT", "NWORKAUT
             "NOTHERFIRST", "NINTERNALPASS", "NNETWORKCLAIM",
             # round 2: a once-valid OIDC token replayed after expiry and refused; NewWorkConn plugin rewrites the
             # credential to an invalid one (refused) / to a valid one (pooled) / rejects
-            "NOIDCEXPIREDREFUSED", "NPLUGREWRITEREFUSED", "NPLUGREWRITEPOOLED", "NPLUGREJECT"]
+            "NOIDCEXPIREDREFUSED", "NPLUGREWRITEREFUSED", "NPLUGREWRITEPOOLED", "NPLUGREJECT",
+            # round 4: frps with an EMPTY auth.token still checks keys against md5("" ++ ts)
+            "NEMPTYTOKENREFUSED"]
+
+
+SSH_REQUIRED = ["NSSHATTACKREFUSED", "NSSHSESSIONKEY", "NSSHSESSIONTOKEN", "NSSHREFUSEDSSH", "NSSHREFUSEDLOGIN"]
+
+
+def overlay_build(c: Check):
+    """Rebuilds work/h_c04 with `go build -overlay`: golang.org/x/crypto/ssh/client_auth.go is replaced (at build time only,
+    client side only, nothing on disk is modified) by a copy whose authentication loop starts with the first configured
+    method instead of "none" when ClientConfig.ClientVersion starts with SSH-2.0-skipnone — the peer of the sshgw driver
+    that goes straight to publickey (paramiko / libssh2 behaviour), which x/crypto's client API cannot express."""
+    mod = os.path.join(WORK, "harness.mod")
+    hdir = os.path.join(V, "harness")
+    rc, out, _ = sh(["go", "list", "-modfile=" + mod, "-m", "-f", "{{.Dir}}", "golang.org/x/crypto"], cwd=hdir, timeout=120)
+    d = out.strip().split("\n")[-1] if rc == 0 else ""
+    src = os.path.join(d, "ssh", "client_auth.go")
+    if rc != 0 or not os.path.exists(src):
+        return "cannot locate golang.org/x/crypto: " + out[-300:]
+    txt = open(src).read()
+    anchor = "\tfor auth := AuthMethod(new(noneAuth)); auth != nil; {\n"
+    if txt.count(anchor) != 1:
+        return "x/crypto/ssh client_auth.go: authentication loop not found (library changed?)"
+    txt = txt.replace(anchor, "\tfirstAuth := AuthMethod(new(noneAuth))\n"
+                              "\tif strings.HasPrefix(config.ClientVersion, \"SSH-2.0-skipnone\") && len(config.Auth) > 0 {\n"
+                              "\t\tfirstAuth = config.Auth[0]\n\t}\n"
+                              "\tfor auth := firstAuth; auth != nil; {\n")
+    if not re.search(r'^\s*"strings"$', txt, re.M):
+        txt = txt.replace('import (\n', 'import (\n\t"strings"\n', 1)
+    patched = os.path.join(c.wd, "client_auth_skipnone.go")
+    open(patched, "w").write(txt)
+    ov = os.path.join(c.wd, "overlay.json")
+    json.dump({"Replace": {src: patched}}, open(ov, "w"))
+    rc, out, _ = sh(["go", "build", "-modfile=" + mod, "-tags", "verif", "-overlay", ov, "-o", os.path.join(WORK, "h_c04"), "./cmd/c04"],
+                    cwd=hdir, timeout=900)
+    c.log.write(out)
+    return None if rc == 0 else "go build -overlay failed: " + out[-600:]
 
 
 def recipe(c: Check):
     c.build(["Properties/C04.vo", "Corr/C04.vo"], harness=["c04"], units=["t4auth"])
     c.obligations("C04")
+    if c.harness_ok:
+        err = overlay_build(c)
+        if err:
+            c.broken.append(dict(kind="harness-build", name="overlay build of harness c04 (ssh client that skips the none probe)", detail=err))
+            c.harness_ok = False
+    sst = c.run_driver("sshgw", 45, shards=2)
+    if sst is not None:
+        counters = c.cov.get("coq_counters", {}).get("sshgw", {})
+        for k in SSH_REQUIRED:
+            if counters.get(k, 0) <= 0 and not c.broken:
+                c.broken.append(dict(kind="coverage", name="driver sshgw never reached %s" % k,
+                                     detail="counter %s = %s" % (k, counters.get(k))))
     st = c.run_driver("auth", q(c.tier, 240, 4000), shards=q(c.tier, 8, 16))
     if st is not None:
         counters = c.cov.get("coq_counters", {}).get("auth", {})
@@ -43,7 +97,11 @@ def recipe(c: Check):
                 c.broken.append(dict(kind="coverage", name="driver auth never reached %s" % k,
                                      detail="counter %s = %s" % (k, counters.get(k))))
     return c.finish(
-        rule="auth driver: one fresh in-process frps per case (token or OIDC with the real go-oidc verifier against a fake issuer; every "
+        rule="sshgw driver: fresh in-process frps with sshTunnelGateway per case, one golang.org/x/crypto/ssh connection each over "
+             "authorized_keys {not configured, configured, unreadable} x client {none only, stock with unknown key, stock with authorised key, "
+             "straight-to-publickey (no none probe; build-time overlay of x/crypto client_auth.go) with unknown key, ... with authorised key} x "
+             "--token {right, wrong, absent}; compared with Model/SshGate.v: handshake accepted, session, proxy, always-pass flag, table size. "
+             "auth driver: one fresh in-process frps per case (token or OIDC with the real go-oidc verifier against a fake issuer; every "
              "subset of {HeartBeats, NewWorkConns} plus a list with duplicates), 8-60 steps: Login / NewWorkConn / NewVisitorConn / 13 other "
              "message types as FIRST message on a network or internal (net.Pipe, HandleListener(l,true)) connection, Ping / NewProxy / "
              "CloseProxy / 8 unhandled types as LATER message, close; keys right / wrong / other timestamp / empty / other token / "
